@@ -264,6 +264,10 @@ LibsJson(b) == IF started THEN MappedObjs(b) ELSE {}
 Guesses(o) == IF Mapped(bias, o) THEN {bias[o]}
               ELSE IF o = "exe" THEN {ExeBias(EM)} ELSE IF o = "libc" THEN {LibcBias} ELSE LibBiases
 
+\* the history is only kept in the generation runs (it is a function of the behaviour, not state the
+\* invariants need; without it the exhaustive runs merge behaviours that differ only in their past)
+Rec(h, e) == IF Emit = "none" THEN h ELSE Append(h, e)
+
 UserReq ==
     /\ phase = "prompt"
     /\ Len(reqs) < MaxReq
@@ -274,7 +278,7 @@ UserReq ==
                 i == Len(reqs) + 1
             IN /\ reqs' = Append(reqs, r)
                /\ impl' = ImplRequest(impl, bias, i, r)
-               /\ hist' = Append(hist, [op |-> "req", rid |-> i, kind |-> k, obj |-> t[1], fn |-> t[2],
+               /\ hist' = Rec(hist, [op |-> "req", rid |-> i, kind |-> k, obj |-> t[1], fn |-> t[2],
                                         mapped |-> Mapped(bias, t[1]), started |-> started,
                                         stop |-> <<>>, views |-> {}, libs |-> {}])
     /\ UNCHANGED <<cfg, bias, ip, phase, started, flags>>
@@ -282,12 +286,13 @@ UserReq ==
 UserCont ==
     /\ phase = "prompt"
     /\ phase' = "run"
-    /\ hist' = Append(hist, [op |-> IF started THEN "cont" ELSE "start", rid |-> 0, kind |-> "", obj |-> "", fn |-> "",
+    /\ hist' = Rec(hist, [op |-> IF started THEN "cont" ELSE "start", rid |-> 0, kind |-> "", obj |-> "", fn |-> "",
                              mapped |-> FALSE, started |-> started, stop |-> <<>>, views |-> {}, libs |-> {}])
     /\ UNCHANGED <<cfg, bias, ip, started, reqs, impl, flags>>
 
 \* the reference's expectations at the prompt that ends the running command
 Close(h, stop, b) ==
+    IF Emit = "none" THEN h ELSE
     [h EXCEPT ![Len(h)].stop = stop, ![Len(h)].views = ViewJson(b), ![Len(h)].libs = MappedObjs(b)]
 
 \* exec + loader + entry point
@@ -377,7 +382,7 @@ NeverLost == phase # "lost"
 \* sanity of the reference itself (must hold in every configuration)
 RefSane ==
     /\ \A o \in Objs : Mapped(bias, o) => \A p \in Objs \ {o} : Mapped(bias, p) => ~InObj(bias, p, StartOf(bias, o))
-    /\ (phase = "prompt" /\ Len(hist) > 0 /\ hist[Len(hist)].op \in {"start", "cont"}) =>
+    /\ (Emit # "none" /\ phase = "prompt" /\ Len(hist) > 0 /\ hist[Len(hist)].op \in {"start", "cont"}) =>
            hist[Len(hist)].stop # <<>>
 
 \* vacuity witnesses (each must be REACHABLE: checked as invariants that TLC must violate, see c18.py)
